@@ -8,6 +8,7 @@ Events are strings so that scripts are JSON-able:
   "@dclose"             close the data connection (FIN)
   "@dstop"              stop reading from the data connection (window closes, connection stays open)
   "@drop" / "@rst"      the peer closes / resets every socket it has
+  "@cdrop"              the peer closes the control connection only
   "@wait <seconds>"     let virtual time pass
 a trailing "!" = do not settle after the event (the next one follows at once)
 """
@@ -98,6 +99,11 @@ class Rig:
             if s.data is not None:
                 with Running(w.loop):
                     s.data.close()
+        elif e == "@cdrop":
+            # only the control connection goes away; the data connection stays as it is
+            if s.ctl is not None:
+                with Running(w.loop):
+                    s.ctl.close()
         elif e == "@drop":
             s.peer.vanish()
         elif e == "@rst":
